@@ -23,10 +23,17 @@ pub fn alphabet() -> Vec<&'static str> {
 
 /// ask git which of the source entries are ignored under this .gitignore
 pub fn git_ignored(w: &Worker, scen: &Scenario) -> Result<BTreeSet<String>, String> {
+    git_ignored_root(w, scen, "src")
+}
+
+/// which entries below `root` (a source directory of the scenario) git ignores under root/.gitignore
+pub fn git_ignored_root(w: &Worker, scen: &Scenario, root: &str) -> Result<BTreeSet<String>, String> {
+    let pre = format!("{}/", root);
+    let pre = pre.as_str();
     let repo = format!("{}/gitrepo", w.base_ext4);
     let stamp = format!("{}/.stamp", repo);
-    let paths: Vec<String> = scen.tree.iter().filter(|e| e.path.starts_with("src/")).map(|e| e.path["src/".len()..].to_string()).collect();
-    let key = crate::util::hash_bytes(paths.join("\n").as_bytes()).to_string();
+    let paths: Vec<String> = scen.tree.iter().filter(|e| e.path.starts_with(pre)).map(|e| e.path[pre.len()..].to_string()).collect();
+    let key = crate::util::hash_bytes(format!("{}\n{}", root, paths.join("\n")).as_bytes()).to_string();
     let env = |c: &mut std::process::Command| {
         c.env_clear().env("PATH", "/usr/bin:/bin").env("HOME", &repo).env("XDG_CONFIG_HOME", format!("{}/.xdg", repo)).env("GIT_CONFIG_GLOBAL", "/dev/null").env("GIT_CONFIG_SYSTEM", "/dev/null").env("GIT_CONFIG_NOSYSTEM", "1").env("LC_ALL", "C");
     };
@@ -40,8 +47,8 @@ pub fn git_ignored(w: &Worker, scen: &Scenario) -> Result<BTreeSet<String>, Stri
         if !st.success() {
             return Err("git init failed".into());
         }
-        for e in scen.tree.iter().filter(|e| e.path.starts_with("src/")) {
-            let p = format!("{}/{}", repo, &e.path["src/".len()..]);
+        for e in scen.tree.iter().filter(|e| e.path.starts_with(pre)) {
+            let p = format!("{}/{}", repo, &e.path[pre.len()..]);
             match &e.kind {
                 Kind::Dir => std::fs::create_dir_all(&p).map_err(|e| e.to_string())?,
                 Kind::File(_) => std::fs::write(&p, b"x").map_err(|e| e.to_string())?,
@@ -50,7 +57,7 @@ pub fn git_ignored(w: &Worker, scen: &Scenario) -> Result<BTreeSet<String>, Stri
         }
         std::fs::write(&stamp, &key).map_err(|e| e.to_string())?;
     }
-    let gi = scen.tree.iter().find(|e| e.path == "src/.gitignore").and_then(|e| e.content()).map(|c| c.bytes()).unwrap_or_default();
+    let gi = scen.tree.iter().find(|e| e.path == format!("{}.gitignore", pre)).and_then(|e| e.content()).map(|c| c.bytes()).unwrap_or_default();
     std::fs::write(format!("{}/.gitignore", repo), &gi).map_err(|e| e.to_string())?;
     let mut c = std::process::Command::new("git");
     c.args(["-C", &repo, "check-ignore", "--no-index", "--stdin"]);
@@ -128,6 +135,83 @@ pub fn judge(w: &Worker, scen: &Scenario, ex: &Exec) -> Judgement {
     simple_judge(v, ex, nontrivial)
 }
 
+/// several source directories, each with its own (or no) .gitignore, copied into one existing directory
+pub fn judge_multi(w: &Worker, scen: &Scenario, ex: &Exec) -> Judgement {
+    let mut v = vec![];
+    let mut nontrivial = false;
+    if exit0(ex) {
+        for root in ["a", "b", "c"] {
+            let pre = format!("{}/", root);
+            let all: Vec<String> = scen.tree.iter().filter(|e| e.path.starts_with(&pre)).map(|e| e.path[pre.len()..].to_string()).collect();
+            let ig = match git_ignored_root(w, scen, root) {
+                Ok(ig) => ig,
+                Err(e) => return Judgement { violations: vec![], outcome_key: format!("ORACLE-ERROR {}", e), nontrivial: false },
+            };
+            nontrivial |= !ig.is_empty();
+            let expected: BTreeSet<String> = all
+                .iter()
+                .filter(|p| {
+                    let mut q = p.as_str();
+                    loop {
+                        if ig.contains(q) {
+                            return false;
+                        }
+                        match q.rfind('/') {
+                            Some(i) => q = &q[..i],
+                            None => return true,
+                        }
+                    }
+                })
+                .cloned()
+                .collect();
+            let dpre = format!("dst/{}/", root);
+            let got: BTreeSet<String> = ex.snap.keys().filter(|k| k.starts_with(&dpre)).map(|k| k[dpre.len()..].to_string()).collect();
+            let missing: Vec<&String> = expected.difference(&got).collect();
+            let extra: Vec<&String> = got.difference(&expected).collect();
+            if !missing.is_empty() {
+                v.push(format!("source {}: not copied although its .gitignore does not exclude them: {:?}", root, missing));
+            }
+            if !extra.is_empty() {
+                v.push(format!("source {}: copied although its .gitignore excludes them: {:?}", root, extra));
+            }
+        }
+    } else if !ex.res.outcome.is_hang() && ex.res.hit_sites.is_empty() {
+        v.push(format!("valid copy ends with {}", ex.res.outcome.short()));
+    }
+    simple_judge(v, ex, nontrivial)
+}
+
+pub fn multi_scenarios() -> Vec<Scenario> {
+    let texts: Vec<Option<&str>> = vec![None, Some("*.log\x0a"), Some("*.tmp\x0a/build/\x0a"), Some("d/\x0a!keep\x0a")];
+    let mut v = vec![];
+    for d in drivers() {
+        for (i, ta) in texts.iter().enumerate() {
+            for (k, tb) in texts.iter().enumerate() {
+                for (m, tc) in texts.iter().enumerate() {
+                    let mut tree = vec![Entry::dir("dst")];
+                    for (root, t) in [("a", ta), ("b", tb), ("c", tc)] {
+                        tree.push(Entry::dir(root));
+                        for f in ["x.log", "y.tmp", "keep", "build/o", "d/z", "d/w.log"] {
+                            if let Some((dir, _)) = f.split_once('/') {
+                                let dp = format!("{}/{}", root, dir);
+                                if !tree.iter().any(|e| e.path == dp) {
+                                    tree.push(Entry::dir(&dp));
+                                }
+                            }
+                            tree.push(Entry::file(&format!("{}/{}", root, f), f));
+                        }
+                        if let Some(t) = t {
+                            tree.push(Entry::file(&format!("{}/.gitignore", root), t));
+                        }
+                    }
+                    v.push(Scenario::new(&format!("gitignore-multi-{}{}{}-{}", i, k, m, d), tree, &["-r", "--gitignore", "--driver", d, "-w", "2", "a", "b", "c", "dst"]));
+                }
+            }
+        }
+    }
+    v
+}
+
 pub fn scenarios(lines: usize) -> Vec<Scenario> {
     let al = alphabet();
     let mut texts: Vec<Vec<&str>> = vec![];
@@ -180,6 +264,9 @@ pub fn run(ctx: &Ctx) -> Report {
     let oracle_errors: Vec<String> = st.outcomes.keys().filter(|k| k.starts_with("ORACLE-ERROR")).cloned().collect();
     rep.part("gitignore texts x drivers", st, serde_json::json!({"lines": lines, "alphabet": alphabet(), "scenarios": n}));
     rep.machinery_errors.extend(oracle_errors);
+    let jm: Judge = &judge_multi;
+    let st = scen_batch(ctx, multi_scenarios(), &[Policy::P0], jm);
+    rep.part("three source directories with every combination of four ignore files (one of them: none)", st, serde_json::json!({"combinations": 64}));
     // the ignore file itself may be unreadable: that must not silently mean "nothing is ignored"
     {
         let w = Worker::new(42, &ctx.pool.bins);
